@@ -239,7 +239,10 @@ def run_case(ctx, case: dict) -> None:
         arun(tcp_flush_race_case(ctx, case["version"], case["parked"], case["payload_len"]))
         return
     ctx.distinct_outcomes = set()
-    outcome = arun(run_schedule(case["config"], case["choices"]))
+    from .. import harness as _harness
+
+    with _harness.options(case["config"].get("config_extra")):
+        outcome = arun(run_schedule(case["config"], case["choices"]))
     judge(ctx, case["config"], case["choices"], outcome, "replay")
 
 
@@ -255,6 +258,22 @@ def run(ctx) -> None:
                 judge(ctx, config, prefix, outcome, "dfs")
                 total += 1
         ctx.exhaustive["schedules-enumerated"] = total
+        # options of Config this harness knows nothing about, set to non-default values: "no set command is lost" does not
+        # depend on how the gateway is configured, so a sample of the configurations is explored again under each
+        from .. import harness as _harness
+
+        for extra in _harness.unknown_options():
+            under = 0
+            for index, config in enumerate(configurations(ctx)):
+                if index % 7 and not config.get("gated_wakes"):
+                    continue
+                if not ctx.mine():
+                    continue
+                with _harness.options(extra):
+                    for prefix, outcome in explore(config, lambda c, p: arun(run_schedule(c, p)), limit=ctx.pick(600, 6000)):
+                        judge(ctx, dict(config, config_extra=extra), prefix, outcome, "dfs-under-option")
+                        under += 1
+            ctx.obs("schedules-under-unknown-option:" + ",".join(sorted(extra)), under)
         # random schedules for larger configurations
         options = [[*K1, True], [*K2, True], [*K3, True], [*KB, True], [C, 0, 2, False], [*K1, True]]
         for i in range(ctx.pick(300, 12000) // ctx.shard_count):
